@@ -1,4 +1,4 @@
-import Verif.Proofs.DataURI
+import Verif.Proofs.DataURIMain
 /-!
 # C18 — Data URI and media type helpers preserve what they encode
 
@@ -11,7 +11,8 @@ driver ever builds; `bytesToChars` of any `List UInt8` satisfies it).
 set_option maxRecDepth 100000
 namespace Verif.Props.C18
 open Verif Verif.Model.DataURI Verif.Proofs.DataURI
-open Verif.Spec.Rfc2397 (pctDecode)
+open Verif.Spec.Rfc2397 (pctDecode rfcParse mtNorm trigPlus trigParamNoType trigB64Item trigTextPlainPrefix
+  trigDataURI holdsDataURI)
 
 /-! ## facts about the regenerated tables (re-checked by the kernel whenever the dependency changes) -/
 
@@ -108,5 +109,125 @@ theorem dataURI_bad (sub : List Char → List Char → Option (List Char)) (u : 
 example : parseDataURI "data:;base64,QQ=".toList = none := by decide
 example : parseDataURI "datx:x".toList = none := by decide
 example : parseDataURI "data:text/html".toList = none := by decide
+
+/-! ## (d) what the helper returns reads, per RFC 2397, as the same media type and the (sub-)minified payload
+
+The statement is against the RFC reading of the *input* (`rfcParse`, specification side), not against the
+dependency's parser.  `sub` is the sub-minifier (`m.Bytes`): an arbitrary function that returns bytes. -/
+
+/-- the sub-minifier returns byte strings -/
+def SubBytes (sub : List Char → List Char → Option (List Char)) : Prop := ∀ m x y, sub m x = some y → AllBytes y
+
+/-- full statement: for every data URL `u` that RFC 2397 reads as (media type `mt`, payload `d`) the result is
+    `u` itself or a data URL that reads as a media type equivalent to `mt` and the payload the sub-minifier
+    produced for `d` (identical bytes when it declined) — and the sub-minifier was asked with a media type
+    equivalent to `mt` -/
+def dataURI_preserves_full : Prop :=
+  ∀ (sub : List Char → List Char → Option (List Char)) (u mt d : List Char),
+    AllBytes u → SubBytes sub → rfcParse u = some (mt, d) →
+    ∃ mtd, mtNorm mtd = mtNorm mt ∧
+      (dataURI sub u = u ∨
+       ∃ mt', rfcParse (dataURI sub u) = some (mt', (sub mtd d).getD d) ∧ mtNorm mt' = mtNorm mt)
+
+/-- proved outside four narrow syntactic triggers (the known findings K-C18-1 … K-C18-4) -/
+theorem dataURI_preserves_partial (sub : List Char → List Char → Option (List Char)) (u mt d : List Char)
+    (hu : AllBytes u) (hsub : SubBytes sub) (hr : rfcParse u = some (mt, d))
+    (g1 : trigPlus u = false) (g2 : trigParamNoType u = false) (g3 : trigB64Item u = false)
+    (g4 : trigTextPlainPrefix u = false) :
+    ∃ mtd, mtNorm mtd = mtNorm mt ∧
+      (dataURI sub u = u ∨
+       ∃ mt', rfcParse (dataURI sub u) = some (mt', (sub mtd d).getD d) ∧ mtNorm mt' = mtNorm mt) := by
+  obtain ⟨mtd, _, h2, h3⟩ := preserves_core sub u mt d hu hsub hr g1 g2 g3 g4
+  exact ⟨mtd, h2, h3⟩
+
+/-- the same in the form the harness evaluates on the implementation's output (`spec.c18.holds`) -/
+theorem dataURI_holds_partial (sub : List Char → List Char → Option (List Char)) (u : List Char)
+    (hu : AllBytes u) (hsub : SubBytes sub) (g : trigDataURI u = false) :
+    ∃ mtd, holdsDataURI u (dataURI sub u)
+      ((sub mtd ((rfcParse u).map (·.2)).get!).getD ((rfcParse u).map (·.2)).get!) = true := by
+  simp only [trigDataURI, Bool.or_eq_false_iff] at g
+  obtain ⟨⟨⟨g1, g2⟩, g3⟩, g4⟩ := g
+  cases hr : rfcParse u with
+  | none => exact ⟨[], by simp [holdsDataURI, hr]⟩
+  | some md =>
+    obtain ⟨mt, d⟩ := md
+    obtain ⟨mtd, _, h | ⟨mt', h1, h2⟩⟩ := dataURI_preserves_partial sub u mt d hu hsub hr g1 g2 g3 g4
+    · exact ⟨mtd, by simp [holdsDataURI, hr, h]⟩
+    · refine ⟨mtd, ?_⟩
+      simp only [holdsDataURI, hr, Option.map_some, Option.get!_some, h1, h2]
+      simp
+
+/-- outside the triggers the dependency's parser reads what RFC 2397 reads (media type up to the normal form).
+    The converse fails by design: Go's base64 decoder also accepts CR/LF inside the payload. -/
+theorem parse_agrees (u mt d : List Char) (hu : AllBytes u) (hr : rfcParse u = some (mt, d))
+    (g : trigDataURI u = false) :
+    ∃ mtd, parseDataURI u = some (mtd, d) ∧ mtNorm mtd = mtNorm mt := by
+  simp only [trigDataURI, Bool.or_eq_false_iff] at g
+  obtain ⟨⟨⟨g1, g2⟩, g3⟩, g4⟩ := g
+  obtain ⟨mtd, h1, h2, _⟩ := preserves_core (fun _ _ => none) u mt d hu (by intro _ _ _ h; cases h) hr g1 g2 g3 g4
+  exact ⟨mtd, h1, h2⟩
+
+example : rfcParse "data:;base64,QU\nJD".toList = none ∧
+    parseDataURI "data:;base64,QU\nJD".toList = some ("text/plain".toList, "ABC".toList) := by decide
+
+/-- non-vacuity: a URL with parameters, whitespace and escapes satisfies every hypothesis -/
+example : AllBytes "data:Text/HTML; charset=us-ascii ;a=b,%3Cp%3e x".toList ∧
+    trigDataURI "data:Text/HTML; charset=us-ascii ;a=b,%3Cp%3e x".toList = false ∧
+    rfcParse "data:Text/HTML; charset=us-ascii ;a=b,%3Cp%3e x".toList
+      = some ("Text/HTML; charset=us-ascii ;a=b".toList, "<p> x".toList) ∧
+    dataURI (fun _ _ => none) "data:Text/HTML; charset=us-ascii ;a=b,%3Cp%3e x".toList
+      = "data:Text/HTML;a=b,%3Cp%3E%20x".toList := by decide
+
+example : trigDataURI "data:image/png;base64,iVBORw0KGgo=".toList = false ∧
+    (rfcParse "data:image/png;base64,iVBORw0KGgo=".toList).isSome = true := by decide
+
+/-- the full statement is false — four independent witnesses, each the replay input of a known finding -/
+theorem dataURI_preserves_counterexample_plus : ¬ dataURI_preserves_full := fun h => by
+  obtain ⟨mtd, _, h1 | ⟨mt', h2, _⟩⟩ :=
+    h (fun _ _ => none) "data:,a+b".toList [] "a+b".toList (by decide) (by intro _ _ _ e; cases e) (by decide)
+  · revert h1; decide
+  · have e : rfcParse (dataURI (fun _ _ => none) "data:,a+b".toList) = some ([], "a b".toList) := by decide
+    rw [e] at h2
+    simp only [Option.getD_none, Option.some.injEq, Prod.mk.injEq] at h2
+    exact absurd h2.2 (by decide)
+
+theorem dataURI_preserves_counterexample_paramNoType : ¬ dataURI_preserves_full := fun h => by
+  obtain ⟨mtd, _, h1 | ⟨mt', h2, h3⟩⟩ :=
+    h (fun _ _ => none) "data:;charset=utf-8,x".toList ";charset=utf-8".toList "x".toList (by decide)
+      (by intro _ _ _ e; cases e) (by decide)
+  · revert h1; decide
+  · have e : rfcParse (dataURI (fun _ _ => none) "data:;charset=utf-8,x".toList) = some ([], "x".toList) := by decide
+    rw [e] at h2
+    simp only [Option.getD_none, Option.some.injEq, Prod.mk.injEq] at h2
+    rw [← h2.1] at h3
+    revert h3; decide
+
+theorem dataURI_preserves_counterexample_b64Item : ¬ dataURI_preserves_full := fun h => by
+  obtain ⟨mtd, _, h1 | ⟨mt', h2, _⟩⟩ :=
+    h (fun _ _ => none) "data:x/y;a=base64,QUJD".toList "x/y;a=base64".toList "QUJD".toList (by decide)
+      (by intro _ _ _ e; cases e) (by decide)
+  · revert h1; decide
+  · have e : rfcParse (dataURI (fun _ _ => none) "data:x/y;a=base64,QUJD".toList)
+        = some ("x/y;a".toList, "ABC".toList) := by decide
+    rw [e] at h2
+    simp only [Option.getD_none, Option.some.injEq, Prod.mk.injEq] at h2
+    exact absurd h2.2 (by decide)
+
+theorem dataURI_preserves_counterexample_textPlainPrefix : ¬ dataURI_preserves_full := fun h => by
+  obtain ⟨mtd, _, h1 | ⟨mt', h2, h3⟩⟩ :=
+    h (fun _ _ => none) "data:text/plainx,abc".toList "text/plainx".toList "abc".toList (by decide)
+      (by intro _ _ _ e; cases e) (by decide)
+  · revert h1; decide
+  · have e : rfcParse (dataURI (fun _ _ => none) "data:text/plainx,abc".toList) = some ("x".toList, "abc".toList) := by
+      decide
+    rw [e] at h2
+    simp only [Option.getD_none, Option.some.injEq, Prod.mk.injEq] at h2
+    rw [← h2.1] at h3
+    revert h3; decide
+
+/-- each witness falls under exactly its own trigger -/
+example : trigPlus "data:,a+b".toList = true ∧ trigParamNoType "data:;charset=utf-8,x".toList = true ∧
+    trigB64Item "data:x/y;a=base64,QUJD".toList = true ∧ trigTextPlainPrefix "data:text/plainx,abc".toList = true := by
+  decide
 
 end Verif.Props.C18
